@@ -747,8 +747,10 @@ impl Sink<Bytes> for Substream {
             match poll_write!(&mut self.substream, cx, &pending_frame) {
                 Poll::Ready(Err(error)) => return Poll::Ready(Err(error.into())),
                 Poll::Pending => {
+                    // Not everything has been handed to the transport yet: the flush is not
+                    // complete and the caller must poll again.
                     self.pending_out_frame = Some(pending_frame);
-                    break;
+                    return Poll::Pending;
                 }
                 Poll::Ready(Ok(nwritten)) => {
                     pending_frame.advance(nwritten);
